@@ -3,5 +3,5 @@ EXTENDS MarkdownDoc, Json
 Texts == [x \in 1..Len(lines) |-> lines[x].txt]
 SegInfo == [x \in 1..Len(doc) |-> [k |-> doc[x].k, len |-> Len(RenderSeg(doc[x])), ncom |-> Len(doc[x].com), cfg |-> doc[x].cfg,
                                 hascmd |-> (doc[x].k = "scrut" /\ HasCmd(doc[x].lines)), term |-> doc[x].term, n |-> doc[x].n, cn |-> doc[x].cn]]
-Emit == Done => PrintT(<<"REPLAY", ToJson([lines |-> Texts, segs |-> SegInfo, ref |-> MdRef(doc), machine |-> [tests |-> tests, err |-> err]])>>)
+Emit == Done => PrintT(<<"REPLAY", ToJson([lines |-> Texts, segs |-> SegInfo, ref |-> MdRef(doc), fm |-> (IF \E x \in 1..Len(doc) : doc[x].k = "fm" /\ ~doc[x].term THEN "any" ELSE IF HasFm(doc) THEN "yes" ELSE "no"), machine |-> [tests |-> tests, err |-> err]])>>)
 =============================================================================
